@@ -120,6 +120,27 @@ func OASShapes() []*spec.Spec {
 		out = append(out, withCell(spec.One("oas_same_nested", f), "oas/unit=same_named_nested", "extended", "valid", "genonly"))
 	}
 	{
+		// messages with schema side products (flattened / nested discriminated oneofs, flatten, unwrap) shared by several services
+		mk := func() []*spec.Message {
+			return []*spec.Message{
+				spec.M("TextContent", spec.F("body", "string")), spec.M("ImageContent", spec.F("url", "string")),
+				spec.M("Event", spec.F("id", "string"), spec.Msg("text", "TextContent").In("content"), spec.Msg("image", "ImageContent").In("content")).
+					WithOneof(&spec.Oneof{Name: "content", Config: true, Disc: "type", Flatten: true}),
+				spec.M("Envelope", spec.F("id", "string"), spec.Msg("text", "TextContent").In("content"), spec.Msg("image", "ImageContent").In("content")).
+					WithOneof(&spec.Oneof{Name: "content", Config: true, Disc: "kind"}),
+				spec.M("Addr", spec.F("street", "string")), spec.M("Person", spec.F("name", "string"), spec.Msg("home", "Addr").FlatP("home_")),
+				spec.M("Bars", spec.F("values", "int32").Rep().Unw()), spec.M("BarsByKey", spec.Msg("data", "Bars").Map()),
+				spec.M("Feed", spec.Msg("events", "Event").Rep(), spec.Msg("envelopes", "Envelope").Map(), spec.Msg("owner", "Person"), spec.Msg("bars", "BarsByKey")),
+			}
+		}
+		f := &spec.File{Messages: mk(), Services: []*spec.Service{
+			EchoService("EventService", "Event", "Envelope", "Person", "BarsByKey"),
+			EchoService("FeedService", "Feed"),
+			EchoService("MirrorService", "Event", "Feed"),
+		}}
+		out = append(out, withCell(spec.One("oas_shared_side_products", f), "oas/unit=shared_across_services", "extended", "valid", "genonly"))
+	}
+	{
 		// recursive and mutually recursive types
 		f := &spec.File{Messages: []*spec.Message{
 			spec.M("Tree", spec.F("label", "string"), spec.Msg("children", "Tree").Rep(), spec.Msg("parent", "Tree")),
